@@ -48,7 +48,7 @@ func condEdgesWith(fn *ssa.Function, pat string, want bool, Normalize func(ssa.V
 			continue
 		}
 		nc := Normalize(ifi.Cond)
-		if !re.MatchString(nc.Base) {
+		if !nc.Matches(re) {
 			continue
 		}
 		if nc.Pol == want {
@@ -268,7 +268,7 @@ func fnAtoms(fn *ssa.Function, assume map[string]*regexp.Regexp) (map[*ssa.If]No
 	for ifi, nc := range norm {
 		tracked := count[nc.Atom] >= 2
 		for _, re := range assume {
-			if re.MatchString(nc.Base) {
+			if nc.Matches(re) {
 				tracked = true
 			}
 		}
@@ -476,7 +476,7 @@ func Reach(q Query) *Hit {
 				// assumption?
 				skip := false
 				for k, re := range assumeRe {
-					if re.MatchString(nc.Base) && q.Assume[k] != val {
+					if nc.Matches(re) && q.Assume[k] != val {
 						skip = true
 					}
 				}
